@@ -75,7 +75,7 @@ class P_xyz(StructureParser):
             w1 = linefields[start][0]
             if len(lfs) == 1 and str(int(w1)) == w1:
                 p_natoms = int(w1)
-                stru.title = lines[start + 1].strip()
+                stru.title = lines[start + 1].strip() if start + 1 < len(lines) else ""
                 start += 2
             else:
                 emsg = "%d: invalid XYZ format, missing number of atoms" % (start + 1)
